@@ -203,10 +203,17 @@ func indexIngest(repo Repo, index *types.Index, conf config.Config, locked bool)
 		rmDesc := []types.Descriptor{}
 		for _, desc := range digestTags {
 			curResp, err := repoGetIndex(repo, desc, locked)
+			if err != nil && gcReadFailed(err) {
+				// the conversion is not finished with what could not be read, it is repeated
+				return mod, err
+			}
 			if err != nil || curResp.Manifests == nil {
 				continue
 			}
-			valid, refSubj, refResp, ordinary := indexValidReferrer(repo, curResp, locked)
+			valid, refSubj, refResp, ordinary, err := indexValidReferrer(repo, curResp, locked)
+			if err != nil {
+				return mod, err
+			}
 			if ordinary {
 				// the tag looks like a fallback tag but the index lists manifests without a subject,
 				// it is not an index of referrers and the tag is left alone
@@ -242,6 +249,9 @@ func indexIngest(repo Repo, index *types.Index, conf config.Config, locked bool)
 		for subj, respList := range addResp {
 			if refDesc, ok := referrerResponse[subj]; ok {
 				resp, err := repoGetIndex(repo, refDesc, locked)
+				if err != nil && gcReadFailed(err) {
+					return mod, err
+				}
 				if err == nil && resp.Manifests != nil {
 					respList = append(respList, resp.Manifests...)
 				}
@@ -328,7 +338,8 @@ func indexIngest(repo Repo, index *types.Index, conf config.Config, locked bool)
 // The returned map is of subjects with a list of descriptors to include in the referrers response to that subject.
 // Errors getting manifests are ignored and those descriptors referencing those manifests are discarded.
 // The last return is true when the index only lists manifests that have no subject.
-func indexValidReferrer(repo Repo, index types.Index, locked bool) (bool, digest.Digest, map[digest.Digest][]types.Descriptor, bool) {
+// An error is returned when a listed manifest could not be read, as opposed to being missing or not a referrer.
+func indexValidReferrer(repo Repo, index types.Index, locked bool) (bool, digest.Digest, map[digest.Digest][]types.Descriptor, bool, error) {
 	var subject digest.Digest
 	valid := true
 	noSubject := 0
@@ -336,13 +347,19 @@ func indexValidReferrer(repo Repo, index types.Index, locked bool) (bool, digest
 	for _, desc := range index.Manifests {
 		rdr, err := repo.blobGet(desc.Digest, locked)
 		if err != nil {
-			// errors result in entry being dropped from response list
+			if gcReadFailed(err) {
+				return false, "", nil, false, err
+			}
+			// a missing manifest results in entry being dropped from response list
 			valid = false
 			continue
 		}
 		raw, err := io.ReadAll(rdr)
 		_ = rdr.Close()
 		if err != nil {
+			if gcReadFailed(err) {
+				return false, "", nil, false, err
+			}
 			valid = false
 			continue
 		}
@@ -378,7 +395,7 @@ func indexValidReferrer(repo Repo, index types.Index, locked bool) (bool, digest
 	if !valid {
 		subject = ""
 	}
-	return valid, subject, responses, noSubject > 0 && len(responses) == 0
+	return valid, subject, responses, noSubject > 0 && len(responses) == 0, nil
 }
 
 func layoutVerify(b []byte) bool {
